@@ -2,7 +2,10 @@ package rules
 
 import (
 	"fmt"
+	"go/token"
 	"go/types"
+	"sort"
+	"strings"
 
 	"golang.org/x/tools/go/ssa"
 
@@ -248,7 +251,6 @@ func originCalls(o *origin.O, f *ssa.Function) bool {
 	return false
 }
 
-
 // failEdgeNoReturn: in a command's main function the failure edge of the error check of `call` ends, on every path, in a
 // call that does not return (log.Fatal, os.Exit with a non-zero status, a fatal helper) and never joins the success path.
 func failEdgeNoReturn(e *Env, p *load.Program, rule, key string, call *ssa.Call) bool {
@@ -343,7 +345,6 @@ func failEdgeNoReturnDom(e *Env, p *load.Program, rule, key string, call *ssa.Ca
 	return ok
 }
 
-
 // nextInstr: the instruction after in, in its block (nil for the last one).
 func nextInstr(in ssa.Instruction) ssa.Instruction {
 	is := in.Block().Instrs
@@ -353,4 +354,100 @@ func nextInstr(in ssa.Instruction) ssa.Instruction {
 		}
 	}
 	return nil
+}
+
+// checkTablesFrozen (E4.frozen): the package-level tables that the rules read as literals (maps, slices, pointers to table
+// structs) keep the value of their initialiser: no function of the package - including declared `func init()`s, which run
+// after all package-level variables (and everything derived from them, such as an inverted table) were initialised -
+// stores into them, deletes from them or re-assigns them.  only names the table-typed globals to look at (nil: all).
+func checkTablesFrozen(e *Env, p *load.Program, pkgPath, rule string) {
+	r := e.R
+	sp := p.SSAPkg[pkgPath]
+	if sp == nil {
+		return
+	}
+	isTable := func(g *ssa.Global) bool {
+		if g == nil || g.Pkg != sp {
+			return false
+		}
+		switch t := g.Type().Underlying().(*types.Pointer).Elem().Underlying().(type) {
+		case *types.Map, *types.Slice, *types.Array:
+			return true
+		case *types.Pointer:
+			_, isStruct := t.Elem().Underlying().(*types.Struct)
+			return isStruct
+		}
+		return false
+	}
+	// the global a value was loaded from (through field/index addressing)
+	var rootGlobal func(v ssa.Value, depth int) *ssa.Global
+	rootGlobal = func(v ssa.Value, depth int) *ssa.Global {
+		if depth > 6 {
+			return nil
+		}
+		switch x := v.(type) {
+		case *ssa.Global:
+			return x
+		case *ssa.UnOp:
+			if x.Op == token.MUL {
+				return rootGlobal(x.X, depth+1)
+			}
+		case *ssa.FieldAddr:
+			return rootGlobal(x.X, depth+1)
+		case *ssa.IndexAddr:
+			return rootGlobal(x.X, depth+1)
+		case *ssa.Field:
+			return rootGlobal(x.X, depth+1)
+		case *ssa.Slice:
+			return rootGlobal(x.X, depth+1)
+		case *ssa.ChangeType:
+			return rootGlobal(x.X, depth+1)
+		}
+		return nil
+	}
+	n := 0
+	var funcs []*ssa.Function
+	for path := range p.SSAPkg {
+		if strings.HasPrefix(path, load.Module) {
+			funcs = append(funcs, p.SrcFuncs(path)...)
+		}
+	}
+	sort.Slice(funcs, func(i, j int) bool { return funcs[i].Pos() < funcs[j].Pos() })
+	for _, f := range funcs {
+		synthetic := f.Name() == "init" && f.Synthetic != "" && f.Pkg == sp
+		for _, b := range f.Blocks {
+			for _, in := range b.Instrs {
+				var g *ssa.Global
+				what := ""
+				switch x := in.(type) {
+				case *ssa.MapUpdate:
+					g, what = rootGlobal(x.Map, 0), "an entry is stored into"
+				case *ssa.Call:
+					if bi, ok := x.Call.Value.(*ssa.Builtin); ok && bi.Name() == "delete" && len(x.Call.Args) > 0 {
+						g, what = rootGlobal(x.Call.Args[0], 0), "an entry is deleted from"
+					}
+				case *ssa.Store:
+					if gl, ok := x.Addr.(*ssa.Global); ok {
+						if !synthetic {
+							g, what = gl, "a new value is assigned to"
+						}
+					} else {
+						g, what = rootGlobal(x.Addr, 0), "an element or field is overwritten in"
+					}
+				}
+				if g == nil || !isTable(g) {
+					continue
+				}
+				if synthetic {
+					continue // the initialiser itself (a literal is built in a fresh value, but `x.f = ...` forms may appear)
+				}
+				n++
+				r.Bad(rule, g.Name()+"/written-in/"+load.FuncName(f), p.Pos(in.Pos()),
+					fmt.Sprintf("%s the package-level table %s in %s: the table no longer has the value of its initialiser, and whatever was derived from it at initialisation (an inverted table, an alias map) does not see the change", what, g.Name(), load.FuncName(f)))
+			}
+		}
+	}
+	if n == 0 {
+		r.OK(rule, "tables-frozen/"+sp.Pkg.Name(), "", "no function of the package (declared init functions included) writes to a package-level table")
+	}
 }
